@@ -133,8 +133,9 @@ func (x *Exec) step(st *State, fi int, instr ssa.Instruction, from *ssa.BasicBlo
 		mt := in.Type().Underlying().(*types.Map)
 		r := x.freshRef(st, "map")
 		dom, _, card, ks, _ := x.mapArrs(st, st.heap, st.epoch, mt)
-		x.heapSetRaw(st, "MD$"+ks, Store(dom, r, Term{fmt.Sprintf("((as const (Array %s Bool)) false)", ks), ArraySort(ks, "Bool")}))
-		x.heapSetRaw(st, "MC", Store(card, r, IntLit(0)))
+		dn, _, cn := x.mapNames(mt)
+		x.heapSetRaw(st, dn, Store(dom, r, Term{fmt.Sprintf("((as const (Array %s Bool)) false)", ks), ArraySort(ks, "Bool")}))
+		x.heapSetRaw(st, cn, Store(card, r, IntLit(0)))
 		x.setReg(st, fi, in, Value{T: r, Typ: in.Type()})
 	case *ssa.MakeChan:
 		r := x.freshRef(st, "chan")
@@ -560,32 +561,34 @@ func isEmptyIface(t types.Type) bool {
 }
 
 func (x *Exec) guardMap(st *State, mt *types.Map, write bool, pos token.Pos) {
-	ks, vs := x.sortOf(mt.Key()), x.sortOf(mt.Elem())
-	for _, n := range []string{"MD$" + ks, "MV$" + ks + "$" + vs} {
+	dn, vn, _ := x.mapNames(mt)
+	for _, n := range []string{dn, vn} {
 		x.guardCheck(st, n, write, false, pos)
 	}
 }
 
 func (x *Exec) mapStore(st *State, m Term, mt *types.Map, k, v Term) {
-	dom, val, card, ks, vs := x.mapArrs(st, st.heap, st.epoch, mt)
+	dom, val, card, _, _ := x.mapArrs(st, st.heap, st.epoch, mt)
+	dn, vn, cn := x.mapNames(mt)
 	x.guardMap(st, mt, true, token.NoPos)
 	had := Select(Select(dom, m), k)
-	x.recHeap("MD$" + ks)
-	x.recHeap("MV$" + ks + "$" + vs)
-	x.recHeap("MC")
-	x.heapSet(st, "MC", Store(card, m, Add(Select(card, m), Ite(had, IntLit(0), IntLit(1)))))
-	x.heapSet(st, "MD$"+ks, Store(dom, m, Store(Select(dom, m), k, TrueT)))
-	x.heapSet(st, "MV$"+ks+"$"+vs, Store(val, m, Store(Select(val, m), k, v)))
+	x.recHeap(dn)
+	x.recHeap(vn)
+	x.recHeap(cn)
+	x.heapSet(st, cn, Store(card, m, Add(Select(card, m), Ite(had, IntLit(0), IntLit(1)))))
+	x.heapSet(st, dn, Store(dom, m, Store(Select(dom, m), k, TrueT)))
+	x.heapSet(st, vn, Store(val, m, Store(Select(val, m), k, v)))
 }
 
 func (x *Exec) mapDelete(st *State, m Term, mt *types.Map, k Term) {
-	dom, _, card, ks, _ := x.mapArrs(st, st.heap, st.epoch, mt)
+	dom, _, card, _, _ := x.mapArrs(st, st.heap, st.epoch, mt)
+	dn, _, cn := x.mapNames(mt)
 	x.guardMap(st, mt, true, token.NoPos)
 	has := x.mapHas(st, st.heap, st.epoch, m, mt, k)
-	x.recHeap("MD$" + ks)
-	x.recHeap("MC")
-	x.heapSet(st, "MC", Store(card, m, Sub(Select(card, m), Ite(has, IntLit(1), IntLit(0)))))
-	x.heapSet(st, "MD$"+ks, Store(dom, m, Store(Select(dom, m), k, FalseT)))
+	x.recHeap(dn)
+	x.recHeap(cn)
+	x.heapSet(st, cn, Store(card, m, Sub(Select(card, m), Ite(has, IntLit(1), IntLit(0)))))
+	x.heapSet(st, dn, Store(dom, m, Store(Select(dom, m), k, FalseT)))
 }
 
 // doNext models one step of a map iteration: pick any unvisited key.
